@@ -1,10 +1,12 @@
 (* Tie/Marks.v — T-tie for graph/graphalg/marks.go (C18): Test, Mark, Unmark generated from the
    current source (word index i/32, bit 1<<uint(i%32), &, |=, &^= on uint32 words) agree with
-   Model/Marks.v on the node ids 0 <= i < 2^62.  grow (a doubling loop and copy) is outside the
-   translator's subset: it is an opaque parameter growf of gen_NodeMarks_Mark and the tie holds
-   for every growf that returns the words of the model's m_grow.  Compiled by bin/ttie. *)
+   Model/Marks.v on the node ids 0 <= i < 2^62.  grow (round 3) is a "for k < n" doubling loop:
+   gen_NodeMarks_grow and gen_NodeMarks_Mark take fuel (the number of bits of n, plus two, is
+   enough) and are tied to m_grow / m_mark; Next (word scan with early return; the opaque
+   bits.TrailingZeros32 is assumed to be the model's ctz on non-zero words) is tied to m_next.
+   Compiled by bin/ttie. *)
 From Coq Require Import ZArith NArith QArith List Lia Bool.
-From MM Require Import Base.Num Base.GoSem Model.Marks.
+From MM Require Import Base.Num Base.GoSem Model.Marks Proofs.Marks.
 From MMGen Require Import Gen_graphalg_types Gen_graphalg_marks.
 Import ListNotations.
 Local Open Scope Z_scope.
@@ -89,14 +91,181 @@ Proof.
   unfold go_uandnot. apply (go_upd_m_upd (fun w => N.ldiff w (N.shiftl 1 (Z.to_N i mod 32))) l i H).
 Qed.
 
-Theorem tie_NodeMarks_Mark : forall (growf : NodeMarks_rec -> Z -> NodeMarks_rec) (m : NodeMarks_rec) (i : Z), id_ok i ->
-  (forall m' i', id_ok i' -> NodeMarks_marks (growf m' i') = m_grow (NodeMarks_marks m') (Z.to_N i')) ->
-  NodeMarks_marks (gen_NodeMarks_Mark growf m i) = m_mark (NodeMarks_marks m) (Z.to_N i).
+(* ---------- grow (marks.go:38-49): k := 1; for k < n { k <<= 1 }; make; copy ---------- *)
+Lemma pow_loop (n : N) (cond : Z -> bool) (body : Z -> Z) :
+  (forall k, cond k = (k <? Z.of_N n)) -> (forall k, 0 < k < 2 ^ 60 -> body k = 2 * k) -> (n < 2 ^ 59)%N ->
+  forall f (k : N), (0 < k)%N -> (k < 2 ^ 60)%N -> (n <= pow2_loop f k n)%N ->
+  go_while (S f) cond body (Z.of_N k) = Some (Z.of_N (pow2_loop f k n)).
 Proof.
-  intros growf [l] i H Hg. unfold gen_NodeMarks_Mark, m_mark. cbn [NodeMarks_marks]. cbv zeta.
+  intros Hc Hb Hn. change (2 ^ 59)%N with 576460752303423488%N in *. change (2 ^ 60)%N with 1152921504606846976%N in *.
+  induction f as [|f IH]; intros k Hk0 Hk Hfin; rewrite go_while_S, Hc; cbn [pow2_loop] in *.
+  - replace (Z.of_N k <? Z.of_N n) with false by (symmetry; apply Z.ltb_ge; clear - Hfin; lia). reflexivity.
+  - destruct (N.ltb_spec k n) as [Hlt|Hge].
+    + replace (Z.of_N k <? Z.of_N n) with true by (symmetry; apply Z.ltb_lt; clear - Hlt; lia).
+      rewrite Hb by (change (2 ^ 60) with 1152921504606846976; change (2 ^ 59)%N with 576460752303423488%N in *; lia).
+      replace (2 * Z.of_N k) with (Z.of_N (2 * k)) by lia.
+      apply IH; [lia | lia | exact Hfin].
+    + replace (Z.of_N k <? Z.of_N n) with false by (symmetry; apply Z.ltb_ge; clear - Hge; lia). reflexivity.
+Qed.
+
+Lemma skipn_repeat {A} (d : A) k n : skipn k (repeat d n) = repeat d (n - k).
+Proof. revert k. induction n as [|n IH]; intros [|k]; simpl; try reflexivity. apply IH. Qed.
+
+Definition grow_fuel (i : Z) : nat := S (S (N.size_nat (Z.to_N i / 32 + 1))).
+
+Theorem tie_NodeMarks_grow : forall (fuel : nat) (m : NodeMarks_rec) (i : Z), id_ok i -> (grow_fuel i <= fuel)%nat ->
+  exists m', gen_NodeMarks_grow fuel m i = Some m' /\ NodeMarks_marks m' = m_grow (NodeMarks_marks m) (Z.to_N i).
+Proof.
+  intros fuel [l] i H Hf. unfold gen_NodeMarks_grow. cbn [NodeMarks_marks]. cbv zeta.
+  rewrite quot32 by exact H.
+  assert (Hq : 0 <= i / 32 < 2 ^ 57).
+  { unfold id_ok in H. split; [apply Z.div_pos; lia|]. apply Z.div_lt_upper_bound; [lia|]. change (2 ^ 57) with 144115188075855872. lia. }
+  set (n := (Z.to_N i / 32 + 1)%N).
+  assert (En : go_sadd 64 (i / 32) 1 = Z.of_N n).
+  { unfold go_sadd, n. rewrite wrap_s64_small by (change (2 ^ 57) with 144115188075855872 in Hq; lia).
+    rewrite N2Z.inj_add, N2Z.inj_div, Z2N.id by (unfold id_ok in H; lia). reflexivity. }
+  rewrite En.
+  assert (Hn : (n < 2 ^ 59)%N).
+  { apply N2Z.inj_lt. rewrite <- En. unfold go_sadd. rewrite wrap_s64_small by (change (2 ^ 57) with 144115188075855872 in Hq; lia).
+    change (Z.of_N (2 ^ 59)) with 576460752303423488. change (2 ^ 57) with 144115188075855872 in Hq. lia. }
+  destruct (pow2_ge_spec n) as [Hge _].
+  match goal with |- context [go_while fuel ?c ?b 1] =>
+    pose proof (pow_loop n c b ltac:(intros; reflexivity)
+                  ltac:(intros k Hk; cbv beta zeta; unfold go_sshl, go_smul, go_sadd; change (2 ^ 1) with 2;
+                        change (2 ^ 60) with 1152921504606846976 in Hk; rewrite wrap_s64_small by lia; lia)
+                  Hn (S (N.size_nat n)) 1%N ltac:(lia) ltac:(reflexivity) Hge) as Hloop;
+    rewrite (go_while_mono c b (S (S (N.size_nat n))) fuel 1 _ Hf Hloop)
+  end.
+  fold (pow2_ge n). eexists; split; [reflexivity|]. cbn [NodeMarks_marks].
+  unfold m_grow. fold n. cbv zeta. unfold go_copy, go_make. rewrite repeat_length, skipn_repeat.
+  replace (Z.to_nat (Z.of_N (pow2_ge n))) with (N.to_nat (pow2_ge n)) by lia. reflexivity.
+Qed.
+
+Theorem tie_NodeMarks_Mark : forall (fuel : nat) (m : NodeMarks_rec) (i : Z), id_ok i -> (grow_fuel i <= fuel)%nat ->
+  exists m', gen_NodeMarks_Mark fuel m i = Some m' /\ NodeMarks_marks m' = m_mark (NodeMarks_marks m) (Z.to_N i).
+Proof.
+  intros fuel m i H Hf. unfold gen_NodeMarks_Mark, m_mark. cbv zeta.
   rewrite quot32, bit32 by exact H. rewrite len_cmp by exact H.
-  destruct (length l <=? N.to_nat (Z.to_N i / 32))%nat; cbn [NodeMarks_marks]; unfold go_uor.
-  - rewrite Hg by exact H. cbn [NodeMarks_marks].
+  destruct (length (NodeMarks_marks m) <=? N.to_nat (Z.to_N i / 32))%nat; unfold go_uor.
+  - destruct (tie_NodeMarks_grow fuel m i H Hf) as (m1 & -> & E1). eexists; split; [reflexivity|]. cbn [NodeMarks_marks]. rewrite E1.
     apply (go_upd_m_upd (fun w => N.lor w (N.shiftl 1 (Z.to_N i mod 32))) _ i H).
-  - apply (go_upd_m_upd (fun w => N.lor w (N.shiftl 1 (Z.to_N i mod 32))) l i H).
+  - eexists; split; [reflexivity|]. cbn [NodeMarks_marks].
+    apply (go_upd_m_upd (fun w => N.lor w (N.shiftl 1 (Z.to_N i mod 32))) _ i H).
+Qed.
+
+(* ---------- Next (marks.go:56-79) ---------- *)
+Definition ctz_ok (ctzf : N -> Z) : Prop := forall w, (0 < w)%N -> ctzf w = Z.of_N (ctz w).
+
+Lemma ctz_pos_log p : (ctz_pos p <= N.log2 (N.pos p))%N.
+Proof.
+  induction p; cbn [ctz_pos]; try (apply N.le_0_l).
+  change (N.pos p~0) with (2 * N.pos p)%N. rewrite N.log2_double by lia. lia.
+Qed.
+Lemma ctz_le w : (0 < w)%N -> (w < 2 ^ 32)%N -> (ctz w < 32)%N.
+Proof.
+  intros H0 H. unfold ctz. destruct w as [|p]; [lia|]. pose proof (ctz_pos_log p) as H1.
+  assert (N.log2 (N.pos p) < 32)%N by (apply N.log2_lt_pow2; lia). lia.
+Qed.
+Definition words32 (l : list N) : Prop := Forall (fun w => (w < 2 ^ 32)%N) l.
+Lemma words32_idx l i : words32 l -> (go_idx 0%N l i < 2 ^ 32)%N.
+Proof.
+  intros H. unfold go_idx. destruct (nth_in_or_default (Z.to_nat i) l 0%N) as [Hin| ->]; [|reflexivity].
+  unfold words32 in H. rewrite Forall_forall in H. apply H. exact Hin.
+Qed.
+
+Section Scan.
+  Variables (ctzf : N -> Z) (l : list N).
+  Hypothesis Hctz : ctz_ok ctzf.
+  Hypothesis Hw32 : words32 l.
+  Variable step : option Z * unit -> Z -> option Z * unit.
+  Hypothesis step_done : forall r bi, step (Some r, tt) bi = (Some r, tt).
+  Hypothesis step_go : forall bi, step (None, tt) bi =
+    if negb (go_idx 0%N l bi =? 0)%N then (Some (go_sadd 64 (go_smul 64 32 bi) (ctzf (go_idx 0%N l bi))), tt) else (None, tt).
+
+  Lemma scan_done r : forall bis, fold_left step bis (Some r, tt) = (Some r, tt).
+  Proof. induction bis as [|b bis IH]; simpl; [reflexivity|]. rewrite step_done. apply IH. Qed.
+
+  Lemma scan_fold : forall rest pre, l = pre ++ rest -> (Z.of_nat (length l) < 2 ^ 57) ->
+    (let '(ret, _) := fold_left step (go_range (Z.of_nat (length pre)) (Z.of_nat (length l))) (None, tt) in
+     match ret with Some r => r | None => -1 end) = m_scan rest (N.of_nat (length pre)).
+  Proof.
+    induction rest as [|b rest IH]; intros pre Hl Hb.
+    - rewrite Hl, app_nil_r, go_range_nil by lia. reflexivity.
+    - assert (Hlen : length l = (length pre + S (length rest))%nat) by (rewrite Hl, app_length; reflexivity).
+      rewrite go_range_cons by lia. cbn [fold_left m_scan]. rewrite step_go.
+      assert (Eb : go_idx 0%N l (Z.of_nat (length pre)) = b) by (rewrite Hl; unfold go_idx; rewrite Nat2Z.id; apply nth_middle).
+      rewrite Eb. destruct (N.eqb_spec b 0) as [->|Hnz]; cbn [negb].
+      + replace (Z.of_nat (length pre) + 1) with (Z.of_nat (length (pre ++ [0%N]))) by (rewrite app_length; simpl; lia).
+        replace (N.of_nat (length pre) + 1)%N with (N.of_nat (length (pre ++ [0%N]))) by (rewrite app_length; simpl; lia).
+        apply IH; [rewrite <- app_assoc; exact Hl | exact Hb].
+      + rewrite scan_done. rewrite (Hctz b) by lia. unfold go_sadd, go_smul.
+        assert (Hc : (ctz b < 32)%N) by (apply ctz_le; [lia | rewrite <- Eb; apply words32_idx; exact Hw32]).
+        change (2 ^ 57) with 144115188075855872 in Hb.
+        rewrite (wrap_s64_small (32 * _)) by lia. rewrite wrap_s64_small by lia. lia.
+  Qed.
+End Scan.
+
+Lemma rem32 i : id_ok i -> go_i2u 64 (go_srem 64 i 32) = (Z.to_N i mod 32)%N.
+Proof.
+  intros H. unfold id_ok in H. unfold go_i2u, go_srem. rewrite Z.rem_mod_nonneg by lia.
+  assert (Hm : 0 <= i mod 32 < 32) by (apply Z.mod_pos_bound; lia).
+  rewrite (Z.mod_small (i mod 32)) by (zpow; lia). rewrite Z2N.inj_mod by lia. reflexivity.
+Qed.
+
+Lemma next_from (ctzf : N -> Z) (l : list N) (i2 : Z) (g : Z) : ctz_ok ctzf -> words32 l -> id_ok i2 -> (Z.of_nat (length l) < 2 ^ 57) ->
+  forall step,
+  (forall r bi, step (Some r, tt) bi = (Some r, tt)) ->
+  (forall bi, step (None, tt) bi =
+     if negb (go_idx 0%N l bi =? 0)%N then (Some (go_sadd 64 (go_smul 64 32 bi) (ctzf (go_idx 0%N l bi))), tt) else (None, tt)) ->
+  g = (if (go_len l <=? i2 / 32) then -1
+       else let b0 := go_ushr 32 (go_idx 0%N l (i2 / 32)) (Z.to_N i2 mod 32) in
+            if negb (b0 =? 0)%N then go_sadd 64 i2 (ctzf b0)
+            else let '(ret, _) := fold_left step (go_range (go_sadd 64 (i2 / 32) 1) (go_len l)) (None, tt) in
+                 match ret with Some r => r | None => -1 end) ->
+  g = (let n := Z.to_N i2 in let q := N.to_nat (n / 32) in
+       match nth_error l q with
+       | None => -1
+       | Some w => let b0 := N.shiftr w (n mod 32) in
+                   if (b0 =? 0)%N then m_scan (skipn (S q) l) (n / 32 + 1)%N else Z.of_N (n + ctz b0)
+       end).
+Proof.
+  intros Hctz Hw32 Hi Hb step Hd Hg ->. cbv zeta. rewrite len_cmp by exact Hi.
+  assert (Hq : 0 <= i2 / 32) by (apply Z.div_pos; unfold id_ok in Hi; lia).
+  destruct (Nat.leb_spec (length l) (N.to_nat (Z.to_N i2 / 32))) as [Hout|Hin].
+  - apply nth_error_None in Hout. rewrite Hout. reflexivity.
+  - unfold go_idx at 1 2. rewrite idx_nat by exact Hi. rewrite (nth_error_nth' l 0%N Hin).
+    unfold go_ushr. set (w := nth (N.to_nat (Z.to_N i2 / 32)) l 0%N). set (b0 := N.shiftr w (Z.to_N i2 mod 32)).
+    destruct (N.eqb_spec b0 0) as [E0|Hnz]; cbn [negb].
+    + set (q := N.to_nat (Z.to_N i2 / 32)) in *.
+      assert (Hsplit : l = firstn (S q) l ++ skipn (S q) l) by (symmetry; apply firstn_skipn).
+      assert (Hfl : length (firstn (S q) l) = S q) by (rewrite firstn_length; lia).
+      assert (Es : go_sadd 64 (i2 / 32) 1 = Z.of_nat (length (firstn (S q) l))).
+      { rewrite Hfl. assert (Eq : Z.of_nat q = i2 / 32) by (unfold q; rewrite <- idx_nat by exact Hi; lia).
+        unfold go_sadd. change (2 ^ 57) with 144115188075855872 in Hb. rewrite wrap_s64_small by lia. lia. }
+      rewrite Es. unfold go_len.
+      rewrite (scan_fold ctzf l Hctz Hw32 step Hd Hg (skipn (S q) l) (firstn (S q) l) Hsplit Hb).
+      rewrite Hfl. f_equal. unfold q. lia.
+    + rewrite (Hctz b0) by lia. unfold go_sadd. unfold id_ok in Hi.
+      assert (Hc : (ctz b0 < 32)%N).
+      { apply ctz_le; [lia|]. unfold b0. eapply N.le_lt_trans; [|apply (words32_idx l (Z.of_nat (N.to_nat (Z.to_N i2 / 32))) Hw32)].
+        unfold go_idx. rewrite Nat2Z.id. fold w. rewrite N.shiftr_div_pow2. apply N.div_le_upper_bound; [apply N.pow_nonzero; lia|].
+        assert (2 ^ (Z.to_N i2 mod 32) <> 0)%N by (apply N.pow_nonzero; lia). nia. }
+      rewrite wrap_s64_small' by lia. lia.
+Qed.
+
+Theorem tie_NodeMarks_Next : forall (ctzf : N -> Z) (m : NodeMarks_rec) (i : Z), ctz_ok ctzf -> words32 (NodeMarks_marks m) ->
+  - 4611686018427387904 <= i < 4611686018427387904 - 1 -> (Z.of_nat (length (NodeMarks_marks m)) < 2 ^ 57) ->
+  gen_NodeMarks_Next ctzf m i = m_next (NodeMarks_marks m) i.
+Proof.
+  intros ctzf [l] i Hctz Hw32 Hi Hb. unfold gen_NodeMarks_Next, m_next. cbn [NodeMarks_marks] in *. cbv zeta.
+  destruct (Z.ltb_spec i 0) as [Hneg|Hpos].
+  - replace (if i + 1 <? 0 then 0 else i + 1) with 0 by (destruct (Z.ltb_spec (i + 1) 0); lia).
+    match goal with |- context [fold_left ?st _ _] =>
+      apply (next_from ctzf l 0 _ Hctz Hw32 ltac:(unfold id_ok; lia) Hb st (fun r bi => eq_refl) (fun bi => eq_refl)) end.
+    rewrite !quot32, !rem32 by (unfold id_ok; lia). reflexivity.
+  - replace (go_sadd 64 i 1) with (i + 1) by (unfold go_sadd; rewrite wrap_s64_small by lia; reflexivity).
+    destruct (Z.ltb_spec (i + 1) 0) as [C|_]; [lia|].
+    match goal with |- context [fold_left ?st _ _] =>
+      apply (next_from ctzf l (i + 1) _ Hctz Hw32 ltac:(unfold id_ok; lia) Hb st (fun r bi => eq_refl) (fun bi => eq_refl)) end.
+    rewrite !quot32, !rem32 by (unfold id_ok; lia). reflexivity.
 Qed.
